@@ -1875,9 +1875,19 @@ class Interp:
                 if pairs is not None:
                     # (a pair whose both halves are constants is a constant tuple: the same pair)
                     pairs = [self.iterate(p) if (p[0] == "list" and not (len(p) > 2 and p[2])) or (p[0] == "c" and isinstance(p[1], (tuple, list))) else None for p in pairs]
-                    if all(p is not None and len(p) == 2 and p[0][0] == "c" and _hashable(p[0][1]) for p in pairs):
+                    if all(p is not None and len(p) == 2 for p in pairs):
                         for p in pairs:
-                            d[p[0][1]] = p[1]
+                            if p[0][0] == "c" and _hashable(p[0][1]):
+                                d[p[0][1]] = p[1]
+                            else:
+                                # a key that is not a constant (an opaque id): a dynamic entry holding (key, value)
+                                dk = _dyn_find(d, p[0])
+                                if dk is None:
+                                    n_ = len(d)
+                                    while ("dyn", n_) in d:
+                                        n_ += 1
+                                    dk = ("dyn", n_)
+                                d[dk] = ("list", [p[0], p[1]])
                         return ("dict", d)
                 return ("dict", {("dyn", 0): a0}, True)
             return ("dict", d)
